@@ -1197,6 +1197,11 @@ func phase3Systematic(emit func(cdoc)) {
 			for _, w := range wrongTypeValues {
 				emit(cdoc{kind: kind, doc: withMember(base, kw.name, mustJV(w)), phase: 3, tags: []string{"phase3", "mutation:type", "systematic", "kw:" + kw.name}})
 			}
+			if kw.special == "ref" { // every odd spelling of a reference, on every kind that can hold one
+				for _, o := range oddRefs {
+					emit(cdoc{kind: kind, doc: withMember(base, kw.name, jStr(o)), phase: 3, tags: []string{"phase3", "mutation:ref", "systematic", "kw:" + kw.name}})
+				}
+			}
 		}
 		if unionKinds[kind] {
 			for _, w := range wrongTypeValues {
